@@ -39,8 +39,16 @@ def lossless_cast(t):
     return m.group(1) if m else None
 
 
+ALIAS = {}      # renamed function -> reference name (filled by mir.Program from normalise_renames)
+
+
 def into_to_from(t):
     """`<A as Into<B>>::into` is the blanket impl; name the `From` impl it forwards to."""
+    k = _into_to_from(t)
+    return ALIAS.get(k, k)
+
+
+def _into_to_from(t):
     ck = t.ckey or "indirect"
     if ck == "core::mem::take" and (t.gargs or "").startswith("[core::option::Option<"):
         return "core::option::Option::take"      # mem::take(&mut opt) is opt.take()
